@@ -522,9 +522,28 @@ class Seam:
                 except OSError:
                     pass
                 raise OSError(errno.EOPNOTSUPP, "Operation not supported")
-            # "cow": a working reflink looks like a direct copy to dst
+            # "cow": a working FICLONE: open(dst, O_CREAT|O_TRUNC) creates an
+            # empty file, then one ioctl makes the whole content appear.
             S.fired["reflink_cow"] += 1
-            return sim_copyfile(src, dst)
+            with real_open(src, "rb") as f:
+                data = f.read()
+            dst_fd = os.open(dst, os.O_WRONLY | os.O_CREAT | os.O_TRUNC, 0o666)
+            try:
+                S.point("ficlone", dst)
+            except BaseException:
+                os.close(dst_fd)
+                try:
+                    os.unlink(dst)
+                except OSError:
+                    pass
+                raise
+            try:
+                os.write(dst_fd, data)
+            finally:
+                os.close(dst_fd)
+            S.stamp(dst)
+            S.after_mutation("copy_done", dst)
+            return None
 
         dsystem.reflink = sim_reflink
 
